@@ -161,7 +161,8 @@ def r5_error_table(ctx, svc: Svc) -> None:
     t = ifnode.test
     if (isinstance(t, ast.Call) and dotted(t.func) == 'isinstance' and len(t.args) == 2
         and isinstance(t.args[0], ast.Name) and t.args[0].id == exc_param):
-      classes = t.args[1].elts if isinstance(t.args[1], ast.Tuple) else [t.args[1]]
+      carg = flow.resolve_local(he.node, t.args[1])
+      classes = carg.elts if isinstance(carg, ast.Tuple) else [carg]
       names = [ctx.lattice.name_of(he.module, c) for c in classes]
       arms.append((names, code_set_in(ifnode.body), ifnode))
       if len(ifnode.orelse) == 1 and isinstance(ifnode.orelse[0], ast.If):
